@@ -265,6 +265,9 @@ impl Scenario for Bytes {
         let mut m2 = RefSet2::new();
         let mut m1 = RefSet1::new();
         let mut shadow = DynSet::new(cfg.set);
+        // the decoder as most programs hold it: inside a Keyboard, fed by add_byte
+        let mut kb_shadow = KbAny::new(cfg.set, DynLayout::Direct(2), hc(true));
+        let mut kb_pend_run = 0usize;
         let mut pend_run = 0usize;
         let pend_limit = if cfg.set == 2 { 2 } else { 1 };
         let mut prev_clean = true;
@@ -487,6 +490,39 @@ impl Scenario for Bytes {
                             pend_run = 0;
                             shadow = DynSet::new(cfg.set);
                             env.cov.probe(if matches!(r, Res::Err(_)) { "obs_shadow_replaced_after_error" } else { "obs_shadow_replaced_after_event" });
+                        }
+                        // the same two oracles for the decoder behind Keyboard::add_byte
+                        let rk = Res::of(&kb.add_byte(b));
+                        let sk = Res::of(&kb_shadow.add_byte(b));
+                        env.cov.api_calls += 2;
+                        env.cov.evaluations += 1;
+                        if rk != sk {
+                            violation = Some(Violation {
+                                oracle: "fresh-decoder-shadow".into(),
+                                op_index: i,
+                                detail: format!(
+                                    "Set {} behind Keyboard::add_byte: after its last event/error the keyboard answered {} to byte {:02X}, a fresh Keyboard given the same bytes since then answers {}",
+                                    cfg.set,
+                                    rk.show(),
+                                    b,
+                                    sk.show()
+                                ),
+                            });
+                            break 'ops;
+                        }
+                        if rk == Res::Pending {
+                            kb_pend_run += 1;
+                            if kb_pend_run > pend_limit {
+                                violation = Some(Violation {
+                                    oracle: "pending-run-length".into(),
+                                    op_index: i,
+                                    detail: format!("Set {} behind Keyboard::add_byte: {} consecutive bytes returned Ok(None) (limit {})", cfg.set, kb_pend_run, pend_limit),
+                                });
+                                break 'ops;
+                            }
+                        } else {
+                            kb_pend_run = 0;
+                            kb_shadow = KbAny::new(cfg.set, DynLayout::Direct(2), hc(true));
                         }
                     }
                 }
